@@ -66,6 +66,8 @@ impl<'me, I: Interner> AnswerStream<I> for ForestSolver<'me, I> {
     /// Panics if a negative cycle was detected.
     fn peek_answer(&mut self, should_continue: impl Fn() -> bool) -> AnswerResult<I> {
         loop {
+            #[cfg(feature = "verif-hooks")]
+            chalk_solve::verif_hooks::tick();
             match self
                 .forest
                 .root_answer(self.context, self.table, self.answer)
